@@ -44,7 +44,7 @@ SHARDS = {"quick": 4, "thorough": 16}
 # pkg_resources in this environment), i.e. the property fails for every input.  While the flag is True the generator does
 # not ask for the plain import (cases carry plain_import=False) and the module is loaded from its source file with a stub
 # `pkg_resources` placed in sys.modules for the duration of the import only.  Flip to False once /repo is repaired.
-EXCLUDE_R9 = True
+EXCLUDE_R9 = False  # repaired in /repo (3198581)
 
 POSCAR_TOL = 1e-12
 PERL_TOL = 1e-9
